@@ -4,6 +4,28 @@ _SUFFIX = (' Decides the structural necessary condition(s) named, on every path 
            'current source; does not decide the run-time behaviour itself.')
 
 CLAIMED = {
+    'C08': {
+        'text': 'Command-path rules R08.1-R08.5: the value returned after merge_notebooks derives (def-use) from the '
+                'conflicted-decision filter in an accepted zero/non-zero form, early zero only under the agreed-deletion '
+                'test; no fall-through/bare return and callee status returned on all three script chains; no except '
+                'handler on the command path completes normally; every output sink is dominated (CFG) by the three '
+                'input reads and the merge and only logging follows; driver redirects out to %A and the registered '
+                'placeholder order matches the parser positions.' + _SUFFIX,
+        'note': 'Trusted: console-script wrapper semantics (sys.exit(main())), nbformat.write serialises before opening '
+                '(checked as a fact on the installed source). Crash points inside the interpreter/OS are not enumerated.',
+        'technique': 'static analysis: def-use origin of the exit status + CFG must-pass-through/dominance of output sinks',
+    },
+    'C20': {
+        'text': 'Confinement and gating rules R20.1-R20.6: interprocedural taint (sources: self.request, get_argument*, '
+                'path args) must not reach the path of any file-system write sink reachable from a handler; the store '
+                'sink is dominated by the refusal branch; loop-stop/exit only in the close handler under the closable '
+                'gate, closable defaults False, self.params never written at request time; read-only endpoints reach only '
+                'temp-rooted sinks; diff/merge wiring passes library objects through unmodified; broad except handlers '
+                're-raise as HTTPError>=400.' + _SUFFIX,
+        'note': 'Trusted: tornado routing/dispatch, jupyter_server base classes; taint is flow-insensitive within a function '
+                '(over-approximate). HTTP behaviour over request sequences is not executed.',
+        'technique': 'static analysis: interprocedural taint + CFG branch dominance + call-graph reachability of sinks',
+    },
     'C12': {
         'text': 'Effect analysis R12.1-R12.5 over every module-level mutable object (discovered, not listed): no explicit '
                 'write and no implicit write (lookup on an auto-inserting table that has a key-sensitive reader) is '
